@@ -2,10 +2,286 @@
 
 package main
 
-func genC26Pending(g *Gen) {}
+// C26 part 2 — RPC correlation on the REAL rpc.PendingTable.
+//
+//   pend <shards> <callers> <failalls:0|1|2> <pComplete> <pCancel> <pDup> <seed>
+//
+// One op = one concurrent scenario.  Every caller i owns id base+i and a private
+// buffered(1) channel, exactly like conn.Call.  Completer goroutines call
+// Complete(id, Response{Payload: nonce}) for a random subset of ids (some twice,
+// some for ids nobody stored), cancellers make callers give up (Delete), and up
+// to two FailAll calls (errors E1, E2) run at random points.  Random yields and
+// short sleeps shuffle the interleaving; NOTHING is asserted about timing: callers
+// wait until every completer/failer goroutine has returned and then look into
+// their channel without blocking, so each outcome is a fact, not a timeout.
+//
+// Output (canonical, one line):
+//   len=<Len() at the end> fa=<n> c<i>=<outcome>/<true completes>/<nonces of true completes>/<phase> ...
+//     outcome: r<tag>.<nonce> | e1 | e2 | e? | 0 (nothing arrived) | x (gave up, nothing in the channel)
+//              | x+r<tag>.<nonce> | x+e1.. (gave up, late delivery found) ; suffix +dup = a second message was delivered
+//     phase:   n (no FailAll) | b (Store returned before the first FailAll began) | a (Store began after a FailAll returned) | o (overlap)
+
+import (
+	"encoding/binary"
+	"errors"
+	"fmt"
+	"runtime"
+	"sort"
+	"strconv"
+	"strings"
+	"sync"
+	"sync/atomic"
+	"time"
+
+	"github.com/WuKongIM/WuKongIM/pkg/transport"
+)
+
+var (
+	c26E1 = errors.New("verif: fail-all 1")
+	c26E2 = errors.New("verif: fail-all 2")
+)
+
+func genC26Pending(g *Gen) {
+	n := g.N / 20
+	if n < 40 {
+		n = 40
+	}
+	g.Case()
+	for i := 0; i < n; i++ {
+		shards := []int{1, 2, 16, 16, 64, 3}[g.R.Intn(6)]
+		callers := []int{1, 2, 3, 8, 8, 32, 64}[g.R.Intn(7)]
+		fa := g.R.Pick(4, 5, 2)
+		pc := []int{0, 30, 60, 90, 100}[g.R.Intn(5)]
+		px := []int{0, 0, 10, 40}[g.R.Intn(4)]
+		pd := []int{0, 20, 50}[g.R.Intn(3)]
+		g.Count(fmt.Sprintf("pend:failalls=%d", fa))
+		g.Op("pend", "%d %d %d %d %d %d %d", shards, callers, fa, pc, px, pd, g.R.U64()>>1)
+	}
+}
 
 type c26PendRunner struct{}
 
 func newC26PendRunner() *c26PendRunner { return &c26PendRunner{} }
 func (p *c26PendRunner) close()        {}
-func (p *c26PendRunner) step(f []string) string { return "bad-op" }
+
+func c26Jitter(r *Rand) {
+	switch r.Intn(6) {
+	case 0:
+	case 1, 2:
+		runtime.Gosched()
+	case 3:
+		for i, n := 0, r.Intn(200); i < n; i++ {
+			runtime.Gosched()
+		}
+	case 4:
+		time.Sleep(time.Duration(r.Intn(50)) * time.Microsecond)
+	default:
+		time.Sleep(time.Duration(r.Intn(400)) * time.Microsecond)
+	}
+}
+
+func c26RespStr(r transport.VerifResponse) string {
+	if r.Err != nil {
+		switch {
+		case errors.Is(r.Err, c26E1):
+			return "e1"
+		case errors.Is(r.Err, c26E2):
+			return "e2"
+		}
+		return "e?"
+	}
+	if len(r.Payload) != 16 {
+		return "r?"
+	}
+	return fmt.Sprintf("r%d.%d", binary.BigEndian.Uint64(r.Payload), binary.BigEndian.Uint64(r.Payload[8:]))
+}
+
+func (p *c26PendRunner) step(f []string) string {
+	if len(f) != 8 || f[0] != "pend" {
+		return "bad-op"
+	}
+	var a [7]uint64
+	for i := range a {
+		v, err := strconv.ParseUint(f[i+1], 10, 64)
+		if err != nil {
+			return "bad-op"
+		}
+		a[i] = v
+	}
+	shards, callers, failAlls, pComplete, pCancel, pDup, seed := int(a[0]), int(a[1]), int(a[2]), int(a[3]), int(a[4]), int(a[5]), a[6]
+	if callers < 1 || callers > 512 || failAlls > 2 || shards < 1 || shards > 1024 {
+		return "bad-op"
+	}
+	root := NewRand(seed)
+	table := transport.VerifNewPendingTable(shards)
+	base := uint64(root.Intn(1000)) * 7
+
+	type callerState struct {
+		ch        chan transport.VerifResponse
+		cancel    chan struct{}
+		outcome   string
+		phase     string
+		trueNonce []uint64
+		mu        sync.Mutex
+	}
+	cs := make([]*callerState, callers)
+	for i := range cs {
+		cs[i] = &callerState{ch: make(chan transport.VerifResponse, 1), cancel: make(chan struct{})}
+	}
+	var faBegun, faEnded atomic.Int64 // number of FailAll calls begun / returned
+	othersDone := make(chan struct{})
+	var callersWG, othersWG sync.WaitGroup
+	var nonce atomic.Uint64
+
+	// callers
+	for i := range cs {
+		i := i
+		r := NewRand(root.U64())
+		callersWG.Add(1)
+		go func() {
+			defer callersWG.Done()
+			c := cs[i]
+			id := base + uint64(i)
+			c26Jitter(r)
+			endedBefore := faEnded.Load()
+			table.Store(id, c.ch)
+			begunAfter := faBegun.Load()
+			switch {
+			case failAlls == 0:
+				c.phase = "n"
+			case endedBefore > 0:
+				c.phase = "a"
+			case begunAfter == 0:
+				c.phase = "b"
+			default:
+				c.phase = "o"
+			}
+			out := ""
+			select {
+			case resp := <-c.ch:
+				out = c26RespStr(resp)
+			case <-c.cancel:
+				table.Delete(id)
+				out = "x"
+			case <-othersDone:
+				select {
+				case resp := <-c.ch:
+					out = c26RespStr(resp)
+				default:
+					out = "0"
+				}
+			}
+			// everything that could still send has finished once othersDone is closed
+			<-othersDone
+			select {
+			case resp := <-c.ch:
+				if out == "x" {
+					out = "x+" + c26RespStr(resp)
+				} else {
+					out += "+dup"
+				}
+			default:
+			}
+			select {
+			case <-c.ch:
+				out += "+dup"
+			default:
+			}
+			c.outcome = out
+		}()
+	}
+	// completers: one goroutine per planned Complete call
+	for i := range cs {
+		if !root.Chance(pComplete) {
+			continue
+		}
+		times := 1
+		if root.Chance(pDup) {
+			times = 2 + root.Intn(2)
+		}
+		for k := 0; k < times; k++ {
+			i := i
+			r := NewRand(root.U64())
+			othersWG.Add(1)
+			go func() {
+				defer othersWG.Done()
+				id := base + uint64(i)
+				c26Jitter(r)
+				c26Jitter(r)
+				n := nonce.Add(1)
+				payload := make([]byte, 16)
+				binary.BigEndian.PutUint64(payload, id)
+				binary.BigEndian.PutUint64(payload[8:], n)
+				if table.Complete(id, transport.VerifResponse{Payload: payload}) {
+					cs[i].mu.Lock()
+					cs[i].trueNonce = append(cs[i].trueNonce, n)
+					cs[i].mu.Unlock()
+				}
+			}()
+		}
+	}
+	// responses for ids nobody owns
+	for k, n := 0, root.Intn(4); k < n; k++ {
+		r := NewRand(root.U64())
+		othersWG.Add(1)
+		go func() {
+			defer othersWG.Done()
+			c26Jitter(r)
+			table.Complete(base+uint64(callers)+uint64(r.Intn(1000)), transport.VerifResponse{Payload: make([]byte, 16)})
+		}()
+	}
+	// cancellers
+	for i := range cs {
+		if !root.Chance(pCancel) {
+			continue
+		}
+		i := i
+		r := NewRand(root.U64())
+		othersWG.Add(1)
+		go func() {
+			defer othersWG.Done()
+			c26Jitter(r)
+			close(cs[i].cancel)
+		}()
+	}
+	// FailAll calls
+	for k := 0; k < failAlls; k++ {
+		k := k
+		r := NewRand(root.U64())
+		othersWG.Add(1)
+		go func() {
+			defer othersWG.Done()
+			c26Jitter(r)
+			if k == 1 {
+				c26Jitter(r)
+			}
+			faBegun.Add(1)
+			if k == 0 {
+				table.FailAll(c26E1)
+			} else {
+				table.FailAll(c26E2)
+			}
+			faEnded.Add(1)
+		}()
+	}
+	// late callers are covered by phase "a": some callers jitter longer than the FailAll goroutines.
+	othersWG.Wait()
+	close(othersDone)
+	callersWG.Wait()
+
+	var b strings.Builder
+	fmt.Fprintf(&b, "len=%d fa=%d", table.Len(), failAlls)
+	for i, c := range cs {
+		sort.Slice(c.trueNonce, func(x, y int) bool { return c.trueNonce[x] < c.trueNonce[y] })
+		var ns []string
+		for _, n := range c.trueNonce {
+			ns = append(ns, strconv.FormatUint(n, 10))
+		}
+		nl := "-"
+		if len(ns) > 0 {
+			nl = strings.Join(ns, ",")
+		}
+		fmt.Fprintf(&b, " c%d=%s/%d/%s/%s", base+uint64(i), c.outcome, len(c.trueNonce), nl, c.phase)
+	}
+	return b.String()
+}
